@@ -542,15 +542,26 @@ class WCS(object):
         return lon_new, lat_new
 
     def _lonlatdiff(self, xy):
+        """
+        offset of image2sky(x, y) from the requested position, in degrees east
+        and north in the tangent plane at the requested position.  Unlike
+        (delta lon, delta lat) this is well conditioned next to the poles,
+        where longitude is degenerate
+        """
         x = xy[0]
         y = xy[1]
         lon, lat = self.image2sky(x, y)
-        lonlat = np.zeros(2)
-        lonlat[0] = lon
-        lonlat[1] = lat
-        diff = lonlat - self.lonlat_answer
-        diff[0] = wrap_ra_diff(diff[0])
-        return diff
+        lon0, lat0 = self.lonlat_answer
+
+        clat, slat = np.cos(lat * d2r), np.sin(lat * d2r)
+        clat0, slat0 = np.cos(lat0 * d2r), np.sin(lat0 * d2r)
+        dlon = (lon - lon0) * d2r
+        cdlon, sdlon = np.cos(dlon), np.sin(dlon)
+
+        diff = np.zeros(2)
+        diff[0] = clat * sdlon
+        diff[1] = slat * clat0 - clat * slat0 * cdlon
+        return diff * r2d
 
     def _fsolve_xy(self, xyguess, xtol=DEFTOL):
         import scipy.optimize
